@@ -78,6 +78,41 @@ out:
     vf_buf_free(ch);
 }
 
+/* sizes and centre children where the list itself cannot be materialised (up to 7^15 children): closed forms against the two
+ * size-only functions, the centre child against digit arithmetic (zeros appended) and the parent's centre point */
+static void case_size_only(H3Index h, int cres) {
+    vf_case("size %016" PRIx64 " %d", h, cres);
+    uint64_t key = vf_mix(h) ^ vf_mix((uint64_t)cres + 7000);
+    if (!VF_GUARD()) {
+        vf_assert_report("cellToChildrenSize", key);
+        VF_UNGUARD();
+        return;
+    }
+    int64_t n = -1, want = ref_children_count(h, cres);
+    H3Error e = cellToChildrenSize(h, cres, &n);
+    vf_add("sizeonly.cases", 1);
+    if (e || n != want) vf_violation("size", "cellToChildrenSize", key, "", "cellToChildrenSize(%016" PRIx64 ", %d) rc=%u size=%" PRId64 " expected %" PRId64, h, cres, e, n, want);
+    H3Index cc = 0, wantcc = h;
+    for (int r = VF_RES(h) + 1; r <= cres; r++) wantcc = vf_set_digit(wantcc, r, 0);
+    wantcc = vf_set_res(wantcc, cres);
+    e = cellToCenterChild(h, cres, &cc);
+    if (e || cc != wantcc) vf_violation("center", "cellToCenterChild", key, "", "cellToCenterChild(%016" PRIx64 ", %d) rc=%u -> %016" PRIx64 " expected %016" PRIx64, h, cres, e, cc, wantcc);
+    else {
+        vf_out_cell("cellToCenterChild", cc, cres);
+        LatLng a, b;
+        if (!cellToLatLng(h, &a) && !cellToLatLng(cc, &b)) {
+            ld d = v3_angle(v3_from_ll(a), v3_from_ll(b));
+            vf_maxd("center_child_offset_rad", (double)d);
+            if (d > c02_tol(a.lat)) vf_violation("center-geo", "cellToCenterChild", key, "", "centre of the res-%d centre child of %016" PRIx64 " is %.3Lg rad from the parent's centre (tol %.3Lg)", cres, h, d, c02_tol(a.lat));
+        }
+        H3Index back = 0;
+        e = cellToParent(cc, VF_RES(h), &back);
+        if (e || back != h) vf_violation("parent", "cellToParent", key, "", "cellToParent(centre child %016" PRIx64 ", %d) rc=%u -> %016" PRIx64, cc, VF_RES(h), e, back);
+    }
+    if (cres > VF_RES(h)) vf_distinct(key);
+    VF_UNGUARD();
+}
+
 /* converse: c is at the reference rank in each ancestor's child list */
 static void case_ancestors(H3Index c) {
     vf_case("ancestors %016" PRIx64, c);
@@ -199,6 +234,22 @@ static void run(void) {
                     if (r >= L + 6) case_ancestors(c);
                     vf_add("pentagon_base_zero_tail.cells", 1);
                 }
+    /* all 136 (res, childRes) pairs: every pentagon, cells that left a pentagon chain, random hexagons */
+    for (int res = 0; res <= 15; res++)
+        for (int cr = res; cr <= 15; cr++) {
+            for (int k = 0; k < 12; k++) {
+                if (!VF_MINE(idx++)) continue;
+                H3Index p = vf_make_cell(res, REF_PENT_BC[k], (int[15]){0});
+                case_size_only(p, cr);
+                if (res >= 1) {
+                    int dg[15] = {0};
+                    dg[vf_below(&r, (uint64_t)res)] = 2 + (int)vf_below(&r, 5);
+                    case_size_only(vf_make_cell(res, REF_PENT_BC[k], dg), cr);
+                }
+            }
+            for (int i = 0; i < VF_T(6, 40); i++)
+                if (VF_MINE(idx++)) case_size_only(vf_rand_cell(&r, res), cr);
+        }
     int nh = VF_T(1500, 20000);
     for (int i = 0; i < nh; i++) {
         int res = (int)vf_below(&r, 16);
@@ -220,6 +271,8 @@ static void replay(const char *spec) {
     vf_rng_seed(&r, 1);
     if (sscanf(spec, "children %" SCNx64 " %d", &h, &x) == 2)
         case_children(h, x);
+    else if (sscanf(spec, "size %" SCNx64 " %d", &h, &x) == 2)
+        case_size_only(h, x);
     else if (sscanf(spec, "ancestors %" SCNx64, &h) == 1)
         case_ancestors(h);
     else if (sscanf(spec, "errors %" SCNx64 " %d", &h, &x) == 2)
